@@ -49,7 +49,7 @@ func IndexOfLastRuneStart(data []byte) (index int, isCompleteRune bool) {
 			return
 		}
 	}
-	return
+	return 0, false
 }
 
 func (_this Properties) HasProperty(property Properties) bool {
